@@ -13,6 +13,8 @@
 (*   C18  property placement table: builder and parser against             *)
 (*        Allowed / Repeatable / ForbiddenValue                            *)
 (*   C04  accepted parser inputs are self-consistent and builder-valid     *)
+(*        (valid = Codec.Broken(fields) is empty, or the live builder      *)
+(*        accepts the same field values)                                   *)
 (* Never stops at a violation: prints <<"VIOL", node, {clauses}>> lines    *)
 (* (and <<"DRIFT", node, {notes}>> lines, which are not verdicts).         *)
 (***************************************************************************)
@@ -54,9 +56,9 @@ C03Clauses(r) ==
        \cup If2(r.built /\ (~r.fwd_equal \/ r.cont_len # SizeOf(r.p)), "bytes-forward")
        \cup If2(~r.ref_ok, "reference-parse-accepts")
        \cup If2(r.ref_ok /\ r.ref_fields # r.p, "reference-parse-fields")
-       \cup If2(r.ref_ok /\ r.ref_consumed # BodySize(r.p), "reference-parse-consumed")
 C03Drift(r) == If2(~r.built, "builder-rejected-valid-packet")
                \cup If2(r.built /\ r.fields # r.p, "accessors-differ-from-input")
+               \cup If2(r.ref_ok /\ r.ref_consumed # BodySize(r.p), "reference-parse-consumed")
 (* the harness must have used the reference bytes of this very packet       *)
 Integrity(r) == r.ref_len = SizeOf(r.p)
 
@@ -89,13 +91,16 @@ C04Clauses(r) ==
              \cup If2(r.size # r.reser_len, "size")
              \cup If2(~r.rp_ok, "reparse-equal:rejected")
              \cup If2(r.rp_ok /\ (~r.rp_eq \/ r.rp_fields # r.fields), "reparse-equal:differs")
-             \cup { "valid-after-accept:" \o b : b \in BrokenOf(r.fields) })
+             \* "the structural rules the builders enforce": a rule of Codec.Broken counts only while
+             \* the live builder path also refuses these very field values (r.rebuild_ok = FALSE)
+             \cup (IF r.rebuild_ok THEN {} ELSE { "valid-after-accept:" \o b : b \in BrokenOf(r.fields) }))
 C04Drift(r) ==
   IF ~r.accepted THEN {}
   ELSE If2(r.reject /\ BrokenOf(r.fields) = {}, "lenient:invalid-input-normalised-by-parser")
        \cup If2(~IsSub(r.k) /\ r.fields.k # "none" /\ r.reser_len <= 400 /\ r.reser_len > 0
                   /\ Runs(Flat(Enc(r.fields))) # r.reser, "not-canonical")
        \cup If2(~r.rebuild_ok /\ BrokenOf(r.fields) = {}, "builder-stricter-than-specification")
+       \cup If2(r.rebuild_ok /\ BrokenOf(r.fields) # {}, "specification-stricter-than-builder")
 
 Clauses(r) ==
   CASE Mode = "C02" -> C02Clauses(r)
